@@ -3,8 +3,9 @@
 (* C10 -- every operator is a total function on the scalar universe and    *)
 (* follows Excel's coercion, error and ordering rules.                     *)
 (*                                                                         *)
-(* The definitions are in ExcelValues (and, for text that spells a         *)
-(* logical, below).  This module is the enumerator:                        *)
+(* The definitions are in ExcelValues (and below: text that spells a       *)
+(* logical, text with digits of other scripts, numerals beyond the         *)
+(* numbers, results beyond the numbers).  This module is the enumerator:   *)
 (* the state is a cursor (operator, a, b[, c]) through Ops x Pool x Pool   *)
 (* (Pool^3 when Triples), the laws named in the property are invariants    *)
 (* over the definitions, and every visited state is exported as one test   *)
@@ -39,24 +40,166 @@ Unary == Op \in UnaryOps
 (* logical TRUE counts as 1.  (& and the comparisons take it as the text   *)
 (* it is: "TRUE"&1 is "TRUE1", "TRUE" < TRUE.)  ExcelValues!ParseNum       *)
 (* leaves these words open (U("any")); the operators of C10 decide them:   *)
-(* ToNumS / ArithS / ApplyS are ToNum / Arith / Apply with that one        *)
-(* refinement.                                                             *)
+(* ToNumS / ArithS / ApplyS are ToNum / Arith / Apply with this refinement *)
+(* and the ones of the next two sections.                                  *)
 SpellsLogical(v) == /\ IsText(v)
                     /\ (LowerIs(Trim(v[2]), TrueWord) \/ LowerIs(Trim(v[2]), FalseWord))
 
-\* number, #VALUE!, or U
-ToNumS(v) == IF SpellsLogical(v) THEN VALUE ELSE ToNum(v)
+--------------------------------------------------------------------------
+(* The digits of a numeral are the ten ASCII digits.  The other characters *)
+(* Unicode classes as digits -- the decimal digits of other scripts        *)
+(* (ARABIC-INDIC DIGIT THREE, DEVANAGARI, FULLWIDTH DIGIT ONE ...) and the  *)
+(* superscript and subscript digits -- do not make numeric text: such a    *)
+(* text plus 1, "1" with SUPERSCRIPT TWO times 2, minus a text of two      *)
+(* FULLWIDTH digits are #VALUE!; & joins such text unchanged and the       *)
+(* comparisons take it as text (equal to itself, above every number).      *)
+(* ExcelValues!ParseNum leaves everything outside printable ASCII open;    *)
+(* the operators of C10 decide text that consists of such digits and of    *)
+(* the ASCII characters ParseNum decides.                                  *)
+DigitLike(c) == \/ c \in {178, 179, 185}              \* superscript two, three, one
+                \/ (c >= 1632 /\ c <= 1641)          \* ARABIC-INDIC DIGIT ZERO .. NINE
+                \/ (c >= 1776 /\ c <= 1785)          \* EXTENDED ARABIC-INDIC
+                \/ (c >= 2406 /\ c <= 2415)          \* DEVANAGARI
+                \/ c = 8304 \/ (c >= 8308 /\ c <= 8313)   \* superscript zero, four .. nine
+                \/ (c >= 8320 /\ c <= 8329)          \* subscript zero .. nine
+                \/ (c >= 65296 /\ c <= 65305)        \* FULLWIDTH DIGIT ZERO .. NINE
+ForeignDigits(v) ==
+   /\ IsText(v)
+   /\ \E p \in 1..Len(v[2]) : DigitLike(v[2][p])
+   /\ \A p \in 1..Len(v[2]) : \/ DigitLike(v[2][p])
+                               \/ (v[2][p] >= 32 /\ v[2][p] <= 126 /\ ~GrayChar(v[2][p]))
+
+--------------------------------------------------------------------------
+(* Numbers beyond the exact fragment of ExcelValues, and text beyond the   *)
+(* numbers.  A number of Excel is a double: finite, of magnitude below     *)
+(* 1.8E308 (Excel itself stops at 9.99999999999999E307).  Nothing else is  *)
+(* a number: no operator returns an infinity or a not-a-number, and text   *)
+(* that spells a numeral which no number can hold ("1e400", "-1E+999") is  *)
+(* not numeric text.  So                                                   *)
+(*   * such text is "other text": ="1e400"+0 is #VALUE! (VALUE("1e400")    *)
+(*     is #VALUE! in Excel, and typed into a cell 1e400 stays text);       *)
+(*   * arithmetic whose exact result lies beyond the range is #NUM!:       *)
+(*     ="1e300"*"1e300", ="1e300"/"1e-300" (as 10.5^400 is, see NPow).     *)
+(* ExcelValues!ParseNum leaves numerals whose value does not fit 32 bits   *)
+(* open (U("any")).  Here they are read as far as the range question needs *)
+(* it: the sign and the decimal exponent of the leading digit.             *)
+(*     <<"G", sg, e>>   a number of sign sg (1, -1) and of magnitude in    *)
+(*                      [10^e, 10^(e+1)), -307 <= e <= 307, digits unknown *)
+(* G values live inside this module only (operands after coercion); a      *)
+(* result that is such a number is exported as U("num").                   *)
+
+Big(sg, e) == <<"G", sg, e>>
+IsBig(v)   == Tag(v) = "G"
+IsNumber(v) == IsNumV(v) \/ IsBig(v)
+
+(* The numeral grammar of ExcelValues!ParseNum, read for sign and          *)
+(* magnitude only: <<sg, e>> for a well-formed numeral with at most nine   *)
+(* digits of mantissa (not all 0) and at most nine digits of exponent,     *)
+(* <<>> for everything else (ParseNum decides those).                      *)
+Sci(s) ==
+  LET t      == Trim(s)
+      n      == Len(t)
+      sl     == IF At(t, 1) = 43 \/ At(t, 1) = 45 THEN 1 ELSE 0
+      sg     == IF At(t, 1) = 45 THEN -1 ELSE 1
+      ip     == Run(t, sl + 1, 0, 0)
+      dot    == At(t, ip[3]) = 46
+      fp     == IF dot THEN Run(t, ip[3] + 1, 0, 0) ELSE <<0, 0, ip[3]>>
+      me     == fp[3]
+      hasE   == At(t, me) = 69 \/ At(t, me) = 101
+      el     == IF hasE /\ (At(t, me + 1) = 43 \/ At(t, me + 1) = 45) THEN 1 ELSE 0
+      eg     == IF hasE /\ At(t, me + 1) = 45 THEN -1 ELSE 1
+      ex     == IF hasE THEN Run(t, me + 1 + el, 0, 0) ELSE <<0, 0, me>>
+      wellformed == /\ ip[2] + fp[2] > 0 /\ ip[2] + fp[2] <= 9
+                    /\ hasE => ex[2] > 0
+                    /\ ex[3] = n + 1
+      m      == ip[1] * Pow10(fp[2]) + fp[1]          \* the mantissa without its point
+  IN  IF ~wellformed THEN <<>>
+      ELSE IF m = 0 THEN <<>>
+      ELSE <<sg, NumDigits(m) - 1 - fp[2] + eg * ex[1]>>
+
+\* the numeral lies beyond every number: 1E309 and up (between the largest
+\* number of Excel and 1E309 the statement does not decide: see ToNumS)
+Beyond(v) == /\ IsText(v)
+             /\ LET m == Sci(v[2]) IN IF m = <<>> THEN FALSE ELSE m[2] >= 309
+
+\* number (N or G), #VALUE!, or U
+ToNumS(v) ==
+  IF SpellsLogical(v) \/ ForeignDigits(v) THEN VALUE
+  ELSE IF ~IsText(v) THEN ToNum(v)
+  ELSE LET r == ParseNum(v[2])
+           m == Sci(v[2])
+       IN  IF ~IsU(r) \/ m = <<>> THEN r              \* exact, or not a plain numeral
+           ELSE IF m[2] >= 309 THEN VALUE             \* no number can hold it: other text
+           ELSE IF m[2] >= 308 THEN U("any")          \* a double, not a number of Excel
+           ELSE IF m[2] <= -308 THEN U("any")         \* 0, a denormal, or not a number: open
+           ELSE Big(m[1], m[2])
+
+\* bounds <<lo, hi>> of the decimal exponent of a number which is not 0
+\* (an exact number has numerator and denominator below 10^9)
+ExpOf(x) == IF IsBig(x) THEN <<x[3], x[3]>>
+            ELSE IF Abs(x[2]) >= x[3]
+                 THEN LET e == NumDigits(Abs(x[2]) \div x[3]) - 1 IN <<e, e>>
+                 ELSE <<-10, -1>>
+SignOf(x) == IF IsBig(x) THEN x[2] ELSE Sgn(x[2])
+IsZeroNum(x) == IsNumV(x) /\ IsZero(x)
+
+\* a result whose decimal exponent lies in [lo, hi]: beyond the range it is
+\* #NUM!, within (a tiny result is 0 or nearly 0) it is a number; 1E308 up
+\* to 1E309 is where the doubles end: open
+Ranged(lo, hi) == IF lo >= 309 THEN NUM
+                  ELSE IF hi <= 307 THEN U("num")
+                  ELSE U("any")
+
+Max2(a, b) == IF a > b THEN a ELSE b
+
+\* x ^ q for a G number x and an exact integer q # 0
+BigPowInt(x, q) ==
+  LET e == x[3]  n == Abs(q) IN
+  IF ~MulFits(Abs(e) + 1, n) THEN U("any")
+  ELSE IF q > 0 THEN Ranged(e * n, (e + 1) * n - 1)
+  ELSE Ranged(-((e + 1) * n), -(e * n))
+
+(* + - * / ^ on two numbers of which at least one is a G number (or an     *)
+(* exact number and an unmodelled one).  Only the magnitude is followed.   *)
+BigArith(op, x, y) ==
+  IF IsU(x) \/ IsU(y) THEN U("any")
+  ELSE LET ex == IF IsZeroNum(x) THEN <<0, 0>> ELSE ExpOf(x)
+           ey == IF IsZeroNum(y) THEN <<0, 0>> ELSE ExpOf(y)
+       IN
+  CASE op \in {"+", "-"} ->
+         IF IsZeroNum(x) \/ IsZeroNum(y) THEN U("num")       \* the other operand, or minus it
+         ELSE IF Max2(ex[2], ey[2]) + 1 <= 307 THEN U("num")
+         ELSE U("any")
+    [] op = "*" ->
+         IF IsZeroNum(x) \/ IsZeroNum(y) THEN Zero
+         ELSE Ranged(ex[1] + ey[1], ex[2] + ey[2] + 1)
+    [] op = "/" ->
+         IF IsZeroNum(y) THEN DIV0
+         ELSE IF IsZeroNum(x) THEN Zero
+         ELSE Ranged(ex[1] - ey[2] - 1, ex[2] - ey[1])
+    [] op = "^" ->
+         IF IsZeroNum(y) THEN One                             \* x is not 0 here
+         ELSE IF IsZeroNum(x) THEN (IF SignOf(y) > 0 THEN Zero ELSE DIV0)
+         ELSE IF IsBig(x) /\ IsNumV(y)
+              THEN IF IsIntegral(y) THEN BigPowInt(x, y[2])
+                   ELSE IF SignOf(x) < 0 THEN NUM             \* no real power
+                   ELSE U("any")
+         ELSE U("any")                                        \* a huge or tiny exponent
 
 \* + - * / ^ : an error operand first (the left one first), then the
-\* coercion failures (the left one first), as in ExcelValues!Arith
+\* coercion failures (the left one first), as in ExcelValues!Arith, with
+\* ToNumS as the coercion
 ArithS(op, a, b) ==
   LET p == Propagate(a, b)
       x == IF IsU(a) THEN a ELSE ToNumS(a)
+      y == IF IsU(b) THEN b ELSE ToNumS(b)
   IN  IF p # Go THEN p
-      ELSE IF ~SpellsLogical(a) /\ ~SpellsLogical(b) THEN Arith(op, a, b)
-      ELSE IF IsErr(x) THEN x                       \* a is the word, or fails itself
+      ELSE IF IsErr(x) THEN x
       ELSE IF IsU(x) /\ x[2] # "num" THEN U("any")  \* a might fail: which error is open
-      ELSE VALUE                                    \* a is a number, b is the word
+      ELSE IF IsErr(y) THEN y
+      ELSE IF IsU(y) /\ y[2] # "num" THEN U("any")
+      ELSE IF IsBig(x) \/ IsBig(y) THEN BigArith(op, x, y)
+      ELSE Arith(op, x, y)                          \* two numbers: ToNum leaves them alone
 
 ApplyS(op, a, b) == IF op \in ArithOps THEN ArithS(op, a, b) ELSE Apply(op, a, b)
 Apply1S(op, a) ==
@@ -111,12 +254,25 @@ Scalar(v) == IsNumV(v) \/ IsText(v) \/ IsBool(v) \/ IsBlank(v)   \* not an error
 \* a number, text, logical or error (or the explicit "not modelled" marker)
 Total == IsResult(R)
 
+\* what an operator returns is an operand again: it is equal to itself,
+\* exactly one of r < 0, r = 0, r > 0 holds and r & "" is its rendering (an
+\* infinity or a not-a-number would be neither); an error value comes back
+\* (a comparison of two numbers which 32 bits cannot decide is left open)
+Closed == LET r == R  e == Text(<<>>)
+              eq == Compare("=", r, r)  ne == Compare("<>", r, r) IN
+   /\ IsErr(r) => eq = r /\ Concat(r, e) = r
+   /\ (~IsErr(r) /\ ~IsU(r)) =>
+        /\ eq \in {TRUEV, U("bool")} /\ ne \in {FALSEV, U("bool")}
+        /\ B2N(Compare("<", r, Zero) = TRUEV) + B2N(Compare("=", r, Zero) = TRUEV)
+             + B2N(Compare(">", r, Zero) = TRUEV) = 1
+        /\ Render(r) # NoRender => Concat(r, e) = Text(Render(r))
+
 \* an error operand is returned unchanged, the left one first
 ErrLeftFirst == /\ IsErr(A) => R = A
                 /\ (~Unary /\ ~IsErr(A) /\ IsErr(B)) => R = B
 
 \* x / 0 = #DIV/0! whenever x is something arithmetic accepts
-DivZeroCase == Op = "/" /\ Scalar(A) /\ Scalar(B) /\ IsNumV(ToNumS(A)) /\ ToNumS(B) = Zero
+DivZeroCase == Op = "/" /\ Scalar(A) /\ Scalar(B) /\ IsNumber(ToNumS(A)) /\ ToNumS(B) = Zero
 DivZero == DivZeroCase => R = DIV0
 
 \* arithmetic: logicals, blanks and numeric text count as their numbers;
@@ -124,7 +280,7 @@ DivZero == DivZeroCase => R = DIV0
 Coercion == (Op \in ArithOps /\ Scalar(A) /\ Scalar(B)) =>
    LET na == ToNumS(A)  nb == ToNumS(B)  r == R IN
    /\ (IsNumV(na) /\ IsNumV(nb)) => r = ApplyS(Op, na, nb)
-   /\ (na = VALUE \/ (IsNumV(na) /\ nb = VALUE)) => r = VALUE
+   /\ (na = VALUE \/ (IsNumber(na) /\ nb = VALUE)) => r = VALUE
 
 \* text that spells a logical is other text to arithmetic, whatever the
 \* other operand is (error operands go first; an operand whose own reading
@@ -132,7 +288,49 @@ Coercion == (Op \in ArithOps /\ Scalar(A) /\ Scalar(B)) =>
 WordCase == (Op \in ArithOps \/ Unary) /\ Scalar(A) /\ (Unary \/ Scalar(B))
             /\ (SpellsLogical(A) \/ (~Unary /\ SpellsLogical(B)))
 WordIsText == WordCase => /\ R \in {VALUE, U("any")}
-                          /\ (Unary \/ IsNumV(ToNumS(A)) \/ SpellsLogical(A)) => R = VALUE
+                          /\ (Unary \/ IsNumber(ToNumS(A)) \/ SpellsLogical(A)) => R = VALUE
+
+\* text that spells a numeral beyond every number is other text to
+\* arithmetic as well; to & and to the comparisons it is the text it is
+BeyondCase == (Op \in ArithOps \/ Unary) /\ Scalar(A) /\ (Unary \/ Scalar(B))
+              /\ (Beyond(A) \/ (~Unary /\ Beyond(B)))
+BeyondIsText ==
+   /\ BeyondCase => /\ R \in {VALUE, U("any")}
+                    /\ (Unary \/ IsNumber(ToNumS(A)) \/ Beyond(A)) => R = VALUE
+   /\ (Op = "&" /\ Beyond(A) /\ Scalar(B)) => (IsU(R) \/ (IsText(R) /\ R[2] = A[2] \o Render(B)))
+   /\ (Op = "<" /\ Beyond(A) /\ IsNumV(B)) => R = FALSEV          \* text is above every number
+
+\* text with digits which are not ASCII digits is other text to arithmetic
+\* as well; & joins it unchanged, it is equal to itself and above every number
+ForeignCase == (Op \in ArithOps \/ Unary) /\ Scalar(A) /\ (Unary \/ Scalar(B))
+               /\ (ForeignDigits(A) \/ (~Unary /\ ForeignDigits(B)))
+ForeignIsText ==
+   /\ ForeignCase => /\ R \in {VALUE, U("any")}
+                     /\ (Unary \/ IsNumber(ToNumS(A)) \/ ForeignDigits(A)) => R = VALUE
+   /\ (Op = "&" /\ ForeignDigits(A) /\ Scalar(B)) =>
+         (IsU(R) \/ (IsText(R) /\ R[2] = A[2] \o Render(B)))
+   /\ (Op = "&" /\ Scalar(A) /\ ForeignDigits(B)) =>
+         (IsU(R) \/ (IsText(R) /\ R[2] = Render(A) \o B[2]))
+   /\ (Op = "=" /\ ForeignDigits(A)) => /\ Compare("=", A, A) = TRUEV
+                                        /\ (A = B) = (R = TRUEV)
+   /\ (Op = ">" /\ ForeignDigits(A) /\ IsNumV(B)) => R = TRUEV
+   /\ (Op = "<" /\ ForeignDigits(A) /\ IsBool(B)) => R = TRUEV
+
+\* arithmetic on two numbers is a number, #NUM! or #DIV/0!, never an infinity:
+\* a product or quotient of two numbers whose magnitudes put it at 1E309 or
+\* beyond is #NUM!, whichever side is the large one; / by a tiny number is *
+\* by a huge one
+BigCase == Op \in ArithOps /\ Scalar(A) /\ Scalar(B)
+           /\ (IsText(A) \/ IsText(B))              \* (only text spells such numbers)
+           /\ IsNumber(ToNumS(A)) /\ IsNumber(ToNumS(B))
+           /\ (IsBig(ToNumS(A)) \/ IsBig(ToNumS(B)))
+SureOverflow(x, y) == ~IsZeroNum(x) /\ ~IsZeroNum(y) /\ ExpOf(x)[1] + ExpOf(y)[1] >= 309
+Overflow == BigCase =>
+   LET x == ToNumS(A)  y == ToNumS(B) IN
+   /\ R \in {NUM, DIV0, Zero, One, U("num"), U("any")}
+   /\ (Op = "*" /\ SureOverflow(x, y)) => (R = NUM /\ ApplyS("*", B, A) = NUM)
+   /\ (Op = "/" /\ IsBig(y) /\ SureOverflow(x, Big(y[2], -(y[3] + 1)))) => R = NUM
+   /\ (Op = "^" /\ IsBig(x) /\ y = IntV(2) /\ SureOverflow(x, x)) => R = NUM
 
 \* exactly one of <, =, > holds; <>, <=, >= are the complements; a < b iff b > a
 \* (a comparison whose outcome the statement leaves open is not a logical)
@@ -208,6 +406,10 @@ ExportPair ==
                tri  |-> B2N(Op = "<" /\ Scalar(A) /\ Scalar(B) /\ IsBool(R)),
                cat  |-> B2N(ConcatCase),
                word |-> B2N(WordCase),
+               far  |-> B2N(BeyondCase),
+               frgn |-> B2N(ForeignCase),
+               big  |-> B2N(BigCase),
+               over |-> B2N(R = NUM /\ BigCase),
                coer |-> B2N(Op \in ArithOps /\ Scalar(A) /\ Scalar(B)
                             /\ (~IsNumV(A) \/ ~IsNumV(B)))]]))
 
